@@ -1,6 +1,8 @@
 import Aldy.Model.World
 import Aldy.Props.C13
 import Aldy.Lemmas.MutOrder
+import Mathlib.Data.List.Sort
+import Mathlib.Data.List.Dedup
 
 /-!
 # C14 — genotyping is deterministic, isolated and leaves the database untouched
@@ -40,6 +42,28 @@ theorem minor_build_independent_of_iteration_order (I : MinorInst) (l₁ l₂ : 
 
 /-- non-vacuity: two iteration orders of one set, one construction order -/
 example : constructionOrder [⟨5, "A>C"⟩, ⟨3, "insT"⟩, ⟨5, "A>B"⟩] = constructionOrder [⟨5, "A>B"⟩, ⟨5, "A>C"⟩, ⟨3, "insT"⟩] := by decide
+
+/-- the pooled candidate alleles are de-duplicated and sorted before they reach the model
+(regenerated from `estimate_minor`) -/
+theorem candidates_are_sorted : Const.MINOR_CANDIDATES_SORTED = true := by decide
+
+/-- what `estimate_minor` hands to the model: the pooled candidates without repetitions, in the
+order of their keys -/
+def canonCands {α : Type} [LinearOrder α] (pool : List α) : List α := (pool.dedup).insertionSort (· ≤ ·)
+
+/-- **candidate_order_canonical** the candidates pooled from the major solutions reach the model in
+one and the same order whatever order the major solutions are given in (any permutation of the
+pool, repetitions included): with `minor_build_independent_of_iteration_order` no list the minor
+model is built from depends on the order of the candidates.  (The key order of the
+implementation - natural order of the (major, minor) names - is a linear order on distinct
+candidates: checked by the candidate-order runs of the harness.) -/
+theorem candidate_order_canonical {α : Type} [LinearOrder α] (p₁ p₂ : List α) (h : p₁.Perm p₂) :
+    canonCands p₁ = canonCands p₂ := by
+  unfold canonCands
+  exact List.Perm.eq_of_pairwise' (r := (· ≤ ·)) (List.pairwise_insertionSort _ _) (List.pairwise_insertionSort _ _)
+    ((List.perm_insertionSort _ _).trans (h.dedup.trans (List.perm_insertionSort _ _).symm))
+
+example : canonCands [21, 12, 21, 11] = canonCands [11, 21, 12] := by decide
 
 /-- **readonly_ops_preserve_world (one step)** no modelled query, accessor, filter or stage
 changes the catalogue or the evidence. -/
